@@ -1204,6 +1204,27 @@ theorem async_listen_acts_iff (r : DevRun) (last : Option Nat) (hr : GhRel r.m (
     · intro _
       rcases hmain.2.2 with ⟨_, hres, _⟩ | ⟨_, hres, _⟩ <;> exact ⟨_, hres⟩
 
+/-- **C05 for whole sessions with listen calls, every script, both classes.**  A session of sends, joins,
+setters and `rxc_listen` calls that returns is a run of the extended history `abstractCalls` of its
+calls (`asyncCalls_runC`; a listen call = its Class C receptions `Ev.rxc`): the acceptance trace predicate
+of `historyC_accept_iff` holds of it from the tracker of the start state — every frame handled, in a
+window, inside a receive procedure or by `rxc_listen`, acted upon iff authentic, fresh and fitting —, the
+outputs are the front-end's answers call by call (`SessObs`), the counters reported as accepted strictly
+increase within every stretch without (re-)join, and the final MAC state is the one the tracker describes. -/
+theorem asyncCallsC_accept_iff {σ} (g : Rng σ) (cfg : DevCfg) (d : DevRun) (rs : σ) (gh : Gh) (hr : GhRel d.m gh)
+    (calls : List AsyncCall) (hv : ∀ c ∈ calls, c.allView viewOk = true)
+    (obs : List CallObs) (d' : DevRun) (rs' : σ) (h : asyncCalls g cfg d rs calls = .ok (obs, d', rs')) :
+    ∃ outs, AcceptTraceC gh ((annotC g (d.m, rs) (abstractCalls g cfg (d.m, rs) calls)).zip outs) ∧
+      GhRel d'.m (ghAfterC gh ((annotC g (d.m, rs) (abstractCalls g cfg (d.m, rs) calls)).zip outs)) ∧
+      SessObs calls obs outs ∧
+      ∀ i n, (∀ x ∈ (((annotC g (d.m, rs) (abstractCalls g cfg (d.m, rs) calls)).zip outs).drop i).take n, isJoinC x.1.2 = false) →
+        (((((annotC g (d.m, rs) (abstractCalls g cfg (d.m, rs) calls)).zip outs).drop i).take n).flatMap
+          (fun x => reportedC x.1.2 x.2)).Pairwise (· < ·) := by
+  obtain ⟨outs, hrun, hobs⟩ := asyncCalls_runC g cfg d rs calls obs d' rs' h
+  have hev := abstractCalls_evOkC g cfg (d.m, rs) calls hv
+  obtain ⟨ht, hg⟩ := historyC_accept_iff g d.m rs gh hr _ hev _ outs hrun
+  exact ⟨outs, ht, hg, hobs, fun i n hq => historyC_fcnt_down_strict g d.m rs gh hr _ hev _ outs hrun i n hq⟩
+
 /-! non-vacuity: a forged frame, a replay, a frame too far ahead, then the authentic fresh one (acted upon,
 the frame after it unheard); and the same device hearing only rejected frames until the radio fails -/
 
@@ -1227,3 +1248,4 @@ end C05
 
 #print axioms C05.async_listen_accept_iff
 #print axioms C05.async_listen_acts_iff
+#print axioms C05.asyncCallsC_accept_iff
